@@ -762,7 +762,8 @@ pub fn main(tier: Tier) -> i32 {
     for b in &bs {
         let a = alphabet(b);
         // pairs: thorough, check_onchain_tx entry only (the approver path shares the validation)
-        let dd = if d == 2 && b.entry == 0 { 2 } else { 1 };
+        // quick: pairs for the wallet-spend and single-funding bases under the default policy
+        let dd = if (d == 2 && b.entry == 0) || (tier == Tier::Quick && b.entry == 0 && b.pol == 0 && b.allow == 0 && b.outputs.len() == 2) { 2 } else { 1 };
         for s in dev_sets(a.len(), dd) {
             if s.len() == 2 && dev_kind(&a[s[0]]) == dev_kind(&a[s[1]]) && !matches!(a[s[0]], Dev::ReplaceOut(..)) {
                 continue;
